@@ -77,13 +77,14 @@ Definition conn_values (h : hdr) : list bytes :=
   match hlookup h K_CONNECTION with Some vs => vs | None => [] end.
 Definition req_conn_tokens (h : hdr) : list bytes := flat_map conn_tokens (conn_values h).
 Definition strip_conn_listed (h : hdr) : hdr := fold_left hdel (req_conn_tokens h) h.
-(* a hop-by-hop header is deleted only when its first value is non-empty (Header.Get != "") *)
+(* a hop-by-hop header is deleted when the key is present (_, ok := Header[h]), whatever its values *)
+Definition has_key (h : hdr) (k : bytes) : bool := match hlookup h k with Some _ => true | None => false end.
 Definition strip_hop_req (h : hdr) : hdr :=
-  fold_left (fun h k => if is_nil (hget h k) then h else hdel h k) gen_hop_headers h.
+  fold_left (fun h k => if has_key h k then hdel h k else h) gen_hop_headers h.
 (* was the header map copied (true) or does outreq.Header alias r.Header (false)? *)
 Definition req_copied (h : hdr) : bool :=
   negb (is_nil (req_conn_tokens h)) ||
-  existsb (fun k => negb (is_nil (hget (strip_conn_listed h) k))) gen_hop_headers.
+  existsb (has_key (strip_conn_listed h)) gen_hop_headers.
 Definition COMMA_SP : bytes := [44; 32].
 Definition add_xff (remote : bytes) (h : hdr) : hdr :=
   match split_host_port remote with
